@@ -501,7 +501,11 @@ B_VALUES = {
     "B": [dc.name("/true"), dc.name("/false")],
 }
 MODE_PAT = ("not a value", "not a constant", "bad pattern", "must be variables", "unbound", "not bound", "no value",
-            "free variable", "should never happen")
+            "free variable", "should never happen", "must be string constant", "must be name constant")
+# the places at which the built-in needs a value ("+" in the documentation of symbols/symbols.go); used only
+# to keep the trigger of recorded finding N106 out of the stream
+B_INPUT = {":match_pair": [0], ":match_cons": [0], ":match_nil": [0], ":match_field": [0, 1], ":match_entry": [0, 1],
+           ":list:member": [1], ":within_distance": [0, 1, 2], ":filter": [0]}
 
 
 def x_const_text(c):
@@ -574,7 +578,8 @@ def tup(c):
     if k == "list":
         return ("list", tuple(tup(x) for x in c[1]))
     if k in ("map", "struct"):
-        return (k, tuple((tup(a), tup(b)) for a, b in c[1]))
+        # entry order is not part of the value (Go keeps the entries in an order of its own)
+        return (k, tuple(sorted((tup(a), tup(b)) for a, b in c[1])))
     raise ValueError(c)
 
 
@@ -777,7 +782,7 @@ def b_known_trigger(neg, name, kinds):
     variable inside a function application is never one of the atom's own output variables)"""
     if neg and name in (":match_pair", ":match_cons") and any(k != "W" for k in kinds[1:]):
         return "N105"
-    if neg and name in (":match_entry", ":match_field") and kinds[1] == "W":
+    if neg and any(kinds[i] == "W" for i in B_INPUT.get(name, [0, 1])):
         return "N106"
     return None
 
@@ -894,8 +899,34 @@ N65_CASE = {"clause": dc.clause(dc.atom(HEAD, dc.app("plus", dc.var(10), n(1))),
             "edb": [dc.fact(1, dc.num(1))], "shape": "probe"}
 
 
+def bi_probe(src):
+    return {"src": src, "extra": B_EXTRA, "limit": 20000, "timeout_ms": 20000}
+
+
+BI_PROBES = (
+    ("N105", "p5(fn:pair(1, 2)).\np1(1).\np0(V0) :- p5(V0), p1(V1), !:match_pair(V0, V1, _).\n", "must be variables",
+     "N105 a negated :match_pair / :match_cons whose 2nd or 3rd argument is a bound variable or a constant is accepted (CheckRule "
+     "even requires those variables to have a value); the engine insists on variables there and evaluation fails: "),
+    ("N106", "p7([1 : 2]).\np1(2).\np0(V0) :- p7(V0), p1(V2), !:match_entry(V0, _, V2).\n", "bad pattern",
+     "N106 a negated built-in with a wildcard at an input place is accepted (CheckRule skips wildcard arguments of negated atoms); "
+     "the built-in has no value there and evaluation fails: "),
+    ("N107", "p6([1, 2]).\np0(V1) :- p6(V0), :match_cons(V0, V1, V1).\n", "should never happen",
+     "N107 the same free variable at both output places of :match_cons / :match_pair is accepted; evaluation fails instead of not "
+     "matching: "),
+    ("N108", "p0(V0) :- :list:member(V0, fn:list(V0, 2)).\n", "not a value",
+     "N108 a variable that a built-in binds at an output place is accepted inside a function application at an input place of the "
+     "same atom (CheckRule marks the output variables bound before it checks the atom's variables); evaluation fails: "),
+)
+
+
 def probes(ck):
     ids = set(k["id"] for k in known_for("C04"))
+    for kid, src, pat, what in BI_PROBES:
+        if kid not in ids:
+            continue
+        o = ck.run_go("c04", [bi_probe(src)])[0].get("out")
+        if o and o["stage"] == "ok" and o["err"] == "eval" and pat in o.get("emsg", ""):
+            ck.known(what + src.strip().split("\n")[-1] + " -> " + o.get("emsg", "")[:80])
     for kid, case, what in (
             ("N61", N61_CASE, "N61 a function application inside a positive body atom whose variable has no value yet is accepted "
                               "(CheckRule counts the variable as bound by the atom); evaluation fails: "),
@@ -947,50 +978,93 @@ def run(ck):
     for path in sorted(glob.glob(os.path.join(os.path.dirname(__file__), "..", "corpus", "C04", "*.json"))):
         cases.append(dict(json.load(open(path)), shape="corpus"))
     ncorpus = len(cases)
-    for _ in range(ck.n(1500, 40000)):
+    for _ in range(ck.n(800, 40000)):
         cases.append(gen_case(rng, big=not ck.quick))
     nrandom = len(cases) - ncorpus
+    # stream E: equalities between constants / variables / function applications in both
+    # orientations with binders to the left, only further right, or nowhere (complete block)
+    cases += eqfn_cases(rng)
+    neq = len(cases) - ncorpus - nrandom
+    # stream B: built-in atoms, every combination of bound / bound-later / unbound / constant /
+    # wildcard arguments, positive and negated (complete block) + function applications
+    cases += builtin_cases(rng, ck.n(120, 1500))
+    nbi = len(cases) - ncorpus - nrandom - neq
     exhaustive = False
     if not ck.quick:
         cases += list(exhaustive_cases())
         exhaustive = True
-    outs = ck.run_go("c04", [go_case(c) for c in cases])
+    outs = ck.run_go("c04", [go_case_b(c) if c.get("bi") else go_case(c) for c in cases])
     terms, idxs = [], []
-    stages, shapes, kinds, errs = {}, {}, {}, {}
+    stages, shapes, kinds, errs, bstages, berrs, bnames = {}, {}, {}, {}, {}, {}, {}
     nviol = 0
     flagged = set()
+    bi_rejected = []
     for i, (c, r) in enumerate(zip(cases, outs)):
+        bi = bool(c.get("bi"))
+        src = x_source(c) if bi else source(c)
         shapes[c["shape"]] = shapes.get(c["shape"], 0) + 1
         for p in c["clause"]["body"]:
             kinds[p[0]] = kinds.get(p[0], 0) + 1
+            if p[0] in ("bi", "nbi"):
+                bnames[p[1]] = bnames.get(p[1], 0) + 1
         if "out" not in r:
-            raise RuntimeError("harness failed on %s: %s" % (source(c), r))
+            raise RuntimeError("harness failed on %s: %s" % (src, r))
         o = r["out"]
         if o["stage"] == "parse":
-            raise RuntimeError("generator produced text the parser rejects: %s: %s" % (source(c), o["msg"]))
-        stages[o["stage"]] = stages.get(o["stage"], 0) + 1
+            raise RuntimeError("generator produced text the parser rejects: %s: %s" % (src, o["msg"]))
+        if o["stage"] == "apanic":
+            if "feasibleAlternatives" in o["msg"] and ":match_entry" in src:
+                ck.known("N24 bounds analysis panics on :match_entry (feasibleAlternatives): " + src.strip().split("\n")[-1])
+                o["stage"] = "analysis"
+            else:
+                raise RuntimeError("analysis panics on %s: %s" % (src, o["msg"][:2000]))
+        st = bstages if bi else stages
+        st[o["stage"]] = st.get(o["stage"], 0) + 1
         if o["stage"] == "ok" and o["err"]:
-            errs[o["err"]] = errs.get(o["err"], 0) + 1
-        why = classify_go(c, o)
+            if bi:
+                berrs[o.get("emsg", "")[:50]] = berrs.get(o.get("emsg", "")[:50], 0) + 1
+            else:
+                errs[o["err"]] = errs.get(o["err"], 0) + 1
+        why = classify_bi(c, o) if bi else classify_go(c, o)
         if why:
             flagged.add(i)
             if nviol < 5:
                 nviol += 1
-                ck.violation({"property": "C04", "kind": why, "program": source(c), "case": c,
-                              "rewritten_rule": o.get("rule"), "impl": {k: o.get(k) for k in ("err", "emsg", "facts", "nonground")},
-                              "impl_facts": dc.canon(dc.facts_from_go(o["facts"])) if not o["err"] else None,
-                              "declarative_facts": oracle(c)})
-        terms.append(cq_case(c, o))
+                rep = {"property": "C04", "kind": why, "program": src, "case": c,
+                       "rewritten_rule": o.get("rule"), "impl": {k: o.get(k) for k in ("err", "emsg", "facts", "nonground")}}
+                if bi:
+                    rep["oracle"] = "independent property-level oracle on Go's output (built-in stream)"
+                    rep["declarative_facts"] = [list(map(str, f)) for f in b_oracle(c)] if not o["err"] else None
+                else:
+                    rep["impl_facts"] = dc.canon(dc.facts_from_go(o["facts"])) if not o["err"] else None
+                    rep["declarative_facts"] = oracle(c)
+                ck.violation(rep)
+        if bi and ck.quick and o["stage"] != "ok":
+            bi_rejected.append(i)          # the model judges a sample of the rejected ones in the quick tier
+            continue
+        terms.append(xq_case(c, o) if bi else cq_case(c, o))
         idxs.append(i)
-    ck.log("go done: %s" % stages)
-    verdicts = ck.run_coq("C04", "judge", terms, shard=max(60, len(terms) // (12 if ck.quick else 64) + 1))
-    codes = {}
+    for i in rng.sample(bi_rejected, min(len(bi_rejected), 250)):
+        terms.append(xq_case(cases[i], outs[i]["out"]))
+        idxs.append(i)
+    ck.log("go done: %s built-in stream: %s" % (stages, bstages))
+    verdicts = ck.run_coq("C04", "judge_x", terms, shard=max(60, len(terms) // (12 if ck.quick else 64) + 1))
+    codes, bcodes = {}, {}
     for i, v in zip(idxs, verdicts):
-        codes[v] = codes.get(v, 0) + 1
+        c, o = cases[i], outs[i]["out"]
+        bi = bool(c.get("bi"))
+        cd = bcodes if bi else codes
+        cd[v] = cd.get(v, 0) + 1
         if v in (0, 9) or i in flagged:
             continue
-        c, o = cases[i], outs[i]["out"]
         if len(ck.violations) >= 5:
+            continue
+        if bi:
+            ck.violation({"property": "C04", "kind": "correspondence model/implementation broken (built-in stream): " + CODES.get(v, str(v)),
+                          "no_longer_checks": "Run.C04.judge_b code %d (%s): the built-in theorems of Props/C04.v (model Analysis/BuiltinCheck.v, "
+                                              "mode table go_table) are no longer tied to analysis/rulecheck.go, ast/decl.go Mode.Check, "
+                                              "builtin.Predicates" % (v, CODES.get(v, "")),
+                          "program": x_source(c), "case": c, "impl": o}, "no-failing-input-found")
             continue
         ck.violation({"property": "C04", "kind": "correspondence model/implementation broken: " + CODES.get(v, str(v)),
                       "no_longer_checks": "Run.C04.judge code %d (%s): theorems of Props/C04.v are no longer tied to analysis/rulecheck.go, "
@@ -999,14 +1073,18 @@ def run(ck):
                       "model": ck.coq_show("C04", "show " + cq_case(c, o))}, "no-failing-input-found")
     probes(ck)
     accepted = stages.get("ok", 0)
-    nontriv = len(set(dc.clause_text(c["clause"]) for c, r in zip(cases, outs)
-                      if r["out"]["stage"] == "ok" and any(p[0] in ("neg", "ineq", "cmp", "eq") for p in c["clause"]["body"])))
-    samples = [source(cases[k]).replace("\n", " ") for k in (ncorpus, ncorpus + 1, len(cases) - 1) if k < len(cases)]
+    nontriv = len(set((x_source(c) if c.get("bi") else dc.clause_text(c["clause"])) for c, r in zip(cases, outs)
+                      if r["out"]["stage"] == "ok" and any(p[0] in ("neg", "ineq", "cmp", "eq", "bi", "nbi") for p in c["clause"]["body"])))
+    samples = [(x_source(cases[k]) if cases[k].get("bi") else source(cases[k])).replace("\n", " ")
+               for k in (ncorpus, ncorpus + 1, ncorpus + nrandom + 7, ncorpus + nrandom + neq + 11) if k < len(cases)]
     cov = {"evaluations": len(cases), "distinct_nontrivial": nontriv,
-           "rule": "one clause + EDB per case (corpus %d, random %d, exhaustive %d); analysis verdict and rewritten order vs model, "
-                   "accepted ones evaluated by Go and compared with the declarative reading (Coq and Python); non-trivial = accepted "
-                   "clause with a negated atom, (in)equality or comparison; distinct by clause text"
-                   % (ncorpus, nrandom, len(cases) - ncorpus - nrandom),
+           "rule": "one clause + EDB per case (corpus %d, random %d, equality block %d, built-in block %d, exhaustive %d); analysis "
+                   "verdict and rewritten order vs model, accepted ones evaluated by Go and compared with the declarative reading (Coq "
+                   "and Python; built-in stream: Python property-level oracle only, model judges verdict and order); non-trivial = "
+                   "accepted clause with a negated atom, (in)equality, comparison or built-in; distinct by text"
+                   % (ncorpus, nrandom, neq, nbi, len(cases) - ncorpus - nrandom - neq - nbi),
+           "builtin_stream": {"analysis_verdicts": bstages, "eval_errors": berrs, "judge_codes": {str(k): v for k, v in sorted(bcodes.items())},
+                              "model_judged": sum(bcodes.values()), "atoms": bnames},
            "exhaustive": exhaustive,
            "exhaustive_scope": ("A: variables X,Y and _ in every argument place of p1(a) p2(a,b) !p3(a) !p4(a,b) a=b a=1 a!=b a<b "
                                 "a=fn:plus(b,1) (63 literals), all bodies of 1 and 2 literals in order, heads p0(X) and p0(X,Y); "
@@ -1028,6 +1106,19 @@ def replay(ck, path):
     ck.build_harness()
     rep = json.load(open(path))
     case = rep["case"]
+    if case.get("bi"):
+        o = ck.run_go("c04", [go_case_b(case)])[0]["out"]
+        why = classify_bi(case, o)
+        v = ck.run_coq("C04", "judge_x", [xq_case(case, o)])[0]
+        print("replay (built-in stream): analysis=%s %s rule=%s err=%s %s facts=%s declarative=%s judge_b=%d (%s)" % (
+            o["stage"], o.get("msg", ""), o.get("rule"), o["err"], o.get("emsg", ""), b_facts_from_go(o["facts"]),
+            b_oracle(case) if o["stage"] == "ok" else "-", v, CODES.get(v, "agree")))
+        if why:
+            print("property verdict:", why)
+        if why or v != 0:
+            print("VIOLATION property=C04 replay=%s" % path)
+            return 1
+        return 0
     o = ck.run_go("c04", [go_case(case)])[0]["out"]
     why = classify_go(case, o)
     v = ck.run_coq("C04", "judge", [cq_case(case, o)])[0]
